@@ -497,6 +497,9 @@ func (e *Explorer) RunPath(f func()) (res PathResult) {
 					kind, msg = endUnsupported, "engine: "+m+"\n"+shortStack()+" TARGET "+targetStack()
 				} else {
 					kind, msg = endPanic, "runtime error: "+m
+					if debugPaths {
+						msg += "\n" + shortStack() + " TARGET " + targetStack()
+					}
 				}
 			case string:
 				if strings.HasPrefix(p, "unexpected") || strings.HasPrefix(p, "no code for function") || strings.HasPrefix(p, "cannot") || strings.HasPrefix(p, "unsupported") || strings.HasPrefix(p, "illegal") || strings.HasPrefix(p, "unknown built-in") || strings.HasPrefix(p, "comparing uncomparable") {
